@@ -361,7 +361,8 @@ def make_image(spec, bankobj):
         # the library's factory-default image is an INPUT here (unknown locations become holes)
         if bankobj == "SYN":
             return prng(4242)
-        return list(lib()["banks"][bankobj].factory_default_contents())[:NLOC]
+        c = list(lib()["banks"][bankobj].factory_default_contents())[:NLOC]
+        return c + [None] * (NLOC - len(c))      # (only a starting image for the unit model: padded if it comes short)
     if spec[0] == "prng":
         return prng(spec[1])
     if spec[0] == "hex":
